@@ -176,6 +176,25 @@ def agree(real, model, ops):
     return abs(Fraction(real[1]) - q) <= tol * max(1, abs(q))
 
 
+def float_equation_ambiguity(t, env):
+    """is there an equation node in the tree whose two sides, evaluated by the real code, are floats (at least one)
+    that agree to 1e-12 relative — equal or one rounding apart?"""
+    stack = [t]
+    while stack:
+        x = stack.pop()
+        if x[0] == "B":
+            if x[1] == "eq":
+                l_, r_ = real_eval(x[2], env), real_eval(x[3], env)
+                if l_[0] in ("flt", "int") and r_[0] in ("flt", "int") and "flt" in (l_[0], r_[0]):
+                    a_, b_ = float(l_[1]), float(r_[1])
+                    if abs(a_ - b_) <= 1e-12 * max(abs(a_), abs(b_), 1e-300):
+                        return True
+            stack += [x[2], x[3]]
+        elif x[0] == "U":
+            stack.append(x[2])
+    return False
+
+
 def z_denote(t, env):
     """the obvious integer denotation (oracle of the exactness clause)"""
     k = t[0]
@@ -401,7 +420,14 @@ def c05(ctx):
             except (ArithmeticError, OverflowError, KeyError, TypeError, IndexError):
                 pass
         if not agree(real, a, ops):
-            diffs.append({"tree": p_str(t), "env": str(env), "real": str(real)[:200], "model": a[:200]})
+            # float equality of two sides that are mathematically equal (or differ by rounding only) is decided by
+            # the last bit of two different computations: the idealised model (exact rationals) cannot predict
+            # whether `one != two` holds there.  Not a disagreement, counted in the notes.
+            eq_involved = real == ("exc", "equationDidNotHold") or a.split()[:2] == ["exc", "equationDidNotHold"]
+            if eq_involved and float_equation_ambiguity(t, env):
+                ctx.notes["float_equality_ambiguous"] = ctx.notes.get("float_equality_ambiguous", 0) + 1
+            else:
+                diffs.append({"tree": p_str(t), "env": str(env), "real": str(real)[:200], "model": a[:200]})
     # division by a divisor that is exactly zero yields NaN also when the zero was computed through the float
     # branch of a power (fractional / negative exponent, float base): 4^0.5 - 2, 2^-1 - 0.5, 0^1.5 are exactly 0.0
     F_ = Fraction
